@@ -206,6 +206,32 @@ def check_special(prop_id, modname, tier, seed):
     return report.finish()
 
 
+def check_crash(prop_id, tier, seed):
+    from . import crash
+    report = Report(prop_id, tier, seed)
+    report.lean = framework.lean_obligations(prop_id, thorough=(tier == "thorough"))
+    cov = crash.run(prop_id, tier, seed, report)
+    if (report.lean["broken"] or report.disagreements) and not report.findings and tier == "quick":
+        more = crash.run(prop_id, "thorough", seed + 7919, report)
+        cov["evaluations"] += more["evaluations"]
+        report.notes.append("failing-input search ran the thorough scenario grid")
+    report.coverage.update(cov)
+    return report.finish()
+
+
+def check_faults(prop_id, tier, seed):
+    from . import faults
+    report = Report(prop_id, tier, seed)
+    report.lean = framework.lean_obligations(prop_id, thorough=(tier == "thorough"))
+    cov = faults.run(prop_id, tier, seed, report)
+    if (report.lean["broken"] or report.disagreements) and not report.findings and tier == "quick":
+        more = faults.run(prop_id, "thorough", seed + 7919, report)
+        cov["evaluations"] += more["evaluations"]
+        report.notes.append("failing-input search ran the thorough fault grid")
+    report.coverage.update(cov)
+    return report.finish()
+
+
 SPECIAL = {"C19": "c19", "C15": "c15", "C14": "c14", "C20": "c20"}
 
 
@@ -221,6 +247,10 @@ def main(argv):
         tier = argv[2]
         if prop_id in props_seq.SEQ_PROPS:
             return check_seq(prop_id, tier, seed)
+        if prop_id in ("C13",):
+            return check_faults(prop_id, tier, seed)
+        if prop_id in ("C09", "C10"):
+            return check_crash(prop_id, tier, seed)
         if prop_id in SPECIAL:
             return check_special(prop_id, SPECIAL[prop_id], tier, seed)
         print("unknown property", prop_id)
